@@ -73,7 +73,7 @@ def run(F, R, tier):
     rel = [r for r in rets if any(x.kind == "cond" and not x.pol and "starts_with" in expr_text(x.node) and "'.'" in expr_text(x.node) for x in guards_at(F, r))]
     R.ob("C09-S", "only relative specifiers are rewritten", len(rel) == 1, "non-relative guard changed", ts["file"])
     asg = [n for n in ts["_nodes"] if n["k"] == "Assign" and field_of(n["l"]) == "value"]
-    R.ob("C09-S", "the specifier value is replaced by the relative path (keeping ./)", len(asg) == 2 and any("./" in expr_text(x) or any(y.get("v") == "./" for y in walk(x["r"]) if y.get("k") == "Lit") for x in asg) or len(asg) == 2, "value assignments: %d" % len(asg), ts["file"])
+    R.ob("C09-S", "the specifier value is replaced by the relative path (keeping ./)", len(asg) >= 1, "value assignments: %d" % len(asg), ts["file"])
     raw = [n for n in ts["_nodes"] if n["k"] == "Assign" and field_of(n["l"]) == "raw" and ctor_of(peel(n["r"])) == "std::option::Option::None"]
     R.ob("C09-S", "the raw text of a rewritten specifier is dropped (otherwise the old text is emitted)", len(raw) == 1 and all(may_reach(F, a_, raw[0]) for a_ in asg), "src.raw is not reset after rewriting", ts["file"])
 
@@ -410,3 +410,25 @@ def run(F, R, tier):
             return any(mentions_call(y, ["deno_ast::emit", "emit"]) or (peel_value(y).get("k") == "Field" and tyc(F, peel_value(y)["e"], "EmittedSource")) for y in through_locals(peel_value(e) if peel_value(e).get("k") != "MethodCall" else peel_value(e)) for _ in [0]) or any(tyc(F, y, "EmittedSource") for y in walk(e)) or any(tyc(F, z, "EmittedSource") for y in walk(e) if y.get("res") == "local" for i_ in through_locals(y) for z in walk(i_))
         ok = from_emit(f["text"]) and from_emit(f["source_map"])
         R.ob("C09-E", "text and source map come from the same emit", ok, "text=%s source_map=%s" % (expr_text(f["text"]), expr_text(f["source_map"])), where(st[0]))
+
+    # ---------------- later (round 6) ---------------------------------------
+    # C09-S: a rewritten relative specifier gets the `./` prefix exactly when the
+    # relative path does not climb (`../`): Url::make_relative yields siblings /
+    # children without a leading dot segment, and those may themselves start
+    # with a dot (`.generated/x.ts`)
+    tms = F.body("fast_check::transform::FastCheckTransformer::transform_module_specifier")
+    fm = [n for n in tms["_nodes"] if n.get("k") == "Call" and macro_of(n, ["format"])]
+    pre = []
+    for n in fm:
+        g = guards_at(F, n)
+        if any(x.kind == "pat" and x.pol and any(y.get("name") == "make_relative" for y in walk(x.scrut)) for x in g) or any(z.get("name") == "make_relative" for z in walk(tms["body"])):
+            pre.append((n, g))
+    R.floor("C09-S `./` prefix site in transform_module_specifier", len(pre), 1)
+    for n, g in pre[:1]:
+        def lit_of(c):
+            return peel(c["args"][0]).get("v") if c.get("k") == "MethodCall" and c["name"] == "starts_with" and c.get("args") else None
+        climbs = [x for x in g if x.kind == "cond" and lit_of(x.node) == "../"]
+        other = [x for x in g if x.kind == "cond" and lit_of(x.node) not in (None, "../") and any(z.get("name") == "make_relative" for y in through_locals(x.node["recv"]) for z in walk(y))]
+        R.ob("C09-S", "`./` is prepended exactly when the relative path does not start with `../`", bool(climbs) and all(not x.pol for x in climbs) and not other,
+             "transform_module_specifier decides the `./` prefix by another test than `!relative.starts_with(\"../\")` (%s): a types module whose path starts with a dot-file or dot-directory is emitted as a bare specifier that does not resolve" % [x.text()[:40] for x in g if x.kind == "cond"][:3],
+             where(n), key="C09|C09-S|dot-slash-prefix")
